@@ -595,9 +595,7 @@ func staleHandleAfterReattach(w *World, root *Node) error {
 	th := atree.VerifThresholds()
 	detached := append([]*Node(nil), w.detached...)
 	for _, d := range detached {
-		if err := w.handle(d); err != nil {
-			return err
-		}
+		// deliberately NOT through w.handle: the old handle is used as it is, whatever happened to the former parent's handle
 		id := rootID(d)
 		q, err := atree.NewArray(w.st, root.Addr, TI{ID: 5})
 		if err != nil {
